@@ -390,6 +390,12 @@ def _siblings(ctx):
             for stn in arm[0][1]:
                 for c in walk(stn):
                     if c.get("k") == "call" and c.get("f") == pname and c.get("a"):
+                        # the recursion is into the SAME predicate: the overload that takes a type, handed the wrapped type
+                        # itself (S10-C04: in_ignoreinvolved(tdef->_type->get_simple_name()) - the by-name overload - looked
+                        # like a recursion to a check that only compared the function's name)
+                        a0 = strip_casts(peel(c["a"][0]))
+                        if "CPPType" not in (c.get("s") or "") or a0 is None or a0.get("k") not in ("mem", "ref"):
+                            continue
                         srcs = [c["a"][0]]
                         # a local holding the wrapped type: read through to what it was initialised with
                         for x in walk(c["a"][0]):
